@@ -274,6 +274,34 @@ class Lib:
     def sf_floor_int(self, ex, node, st):
         return self.b_math_floor(ex, st, [ex.eval(node.args[0], st)], {}, node)
 
+    def sf_prefix_sums_2d(self, ex, node, st):
+        """prefix_sums_2d(lambda i, j: term, n, m) -> P with P(i, j) = term(i,0) + ... + term(i,j)
+        (defining recurrence as axioms); callable as P(i, j)."""
+        lam = node.args[0]
+        n = to_z3(as_int(ex.eval(node.args[1], st)))
+        m = to_z3(as_int(ex.eval(node.args[2], st)))
+        ni, nj = [a.arg for a in lam.args.args]
+        i, j = bvar(ni), bvar(nj)
+        s2 = st.fork()
+        s2.locals[ni], s2.locals[nj] = i, j
+        saved = ex.checking
+        ex.checking = False
+        ex.binders += 1
+        ex.bound_stack.extend([i, j])
+        try:
+            t = to_z3(as_real(ex.eval(lam.body, s2)))
+        finally:
+            ex.checking = saved
+            ex.binders -= 1
+            del ex.bound_stack[-2:]
+        _carry(st, s2)
+        P = z3.Function(uid("psum2"), I, I, R)
+        t0 = z3.substitute(t, (j, z3.IntVal(0)))
+        st.pc.append(z3.ForAll([i], z3.Implies(z3.And(i >= 0, i < n, m >= 1), P(i, 0) == t0), patterns=[P(i, 0)]))
+        st.pc.append(z3.ForAll([i, j], z3.Implies(z3.And(i >= 0, i < n, j >= 1, j < m), P(i, j) == P(i, j - 1) + t),
+                               patterns=[P(i, j)]))
+        return Opaque("fn2", uf=P)
+
     def sf_cut(self, ex, node, st):
         """Ghost assertion: proved here (obligation), then available as a hypothesis."""
         saved = ex.checking
@@ -349,7 +377,10 @@ class Lib:
         fnode, cls = mod.functions[(rf.cls + "." if rf.cls else "") + rf.name]
         params = [a.arg for a in fnode.args.args]
         bind = {}
-        if cls and params and params[0] == "self":
+        is_classmethod = bool(cls and params and params[0] == "cls")
+        if is_classmethod:
+            params = params[1:]
+        elif cls and params and params[0] == "self":
             params = params[1:]
             if rf.receiver is not None:
                 bind["self"] = rf.receiver
@@ -369,7 +400,7 @@ class Lib:
         missing = [p for p in params if p not in bind]
         if missing:
             raise EngineError("%s:L%d: call of %s misses %s" % (ex.fnname, node.lineno, rf.qualname, missing))
-        if cls and "self" not in bind:
+        if cls and not is_classmethod and "self" not in bind:
             raise EngineError("%s:L%d: method %s called without a receiver" % (ex.fnname, node.lineno, rf.qualname))
         fr = State()
         fr.locals = dict(bind)
@@ -397,6 +428,9 @@ class Lib:
             st.assume(znot(w))
         facts = []
         result = None
+        vec = [p for p in c.options.get("vectorized", []) if isinstance(bind.get(p), Seq)]
+        if vec:
+            return self._call_vectorized(ex, st, rf, c, bind, vec, node, short)
         bvs = list(ex.bound_stack)
         if bvs and c.returns in ("real", "int", "bool"):
             # called under quantifier-bound variables: the result is a function of them, and the
@@ -406,6 +440,9 @@ class Lib:
             result = F(*bvs)
         elif bvs and c.returns and c.returns != "none":
             raise EngineError("%s:L%d: call of %s under a bound variable with a non-scalar result" % (ex.fnname, node.lineno, rf.qualname))
+        elif c.returns and c.returns.startswith("obj["):
+            target = c.returns[4:-1]
+            result = c.make_self(ex, st, facts, c.registry.class_fields(target), target, short.replace(".", "_") + "_res")
         elif c.returns and c.returns != "none":
             result = fresh(parse_type(c.returns), short.replace(".", "_") + "_res", (), facts)
         for f in facts:
@@ -440,6 +477,8 @@ class Lib:
             for f in facts:
                 if not isinstance(f, tuple):
                     st.assume(f)
+            if gname in getattr(ex.contract, "ghost_results", {}):
+                st.locals[gname] = fr.locals[gname]     # the caller re-exports the callee's ghost result
         for e in c.ensures:
             fact = ev(e)
             if bvs:
@@ -449,6 +488,42 @@ class Lib:
             else:
                 st.assume(fact)
         return result
+
+    def _call_vectorized(self, ex, st, rf, c, bind, vec, node, short):
+        """A contract stated for a scalar argument, applied to an array element by element (the
+        function is a composition of numpy ufuncs): result[i] satisfies the postcondition for x[i]."""
+        from .values import _SORT
+        n = bind[vec[0]].n
+        j = bvar("v")
+        F = z3.Function(uid(short.replace(".", "_") + "_vec"), I, _SORT[c.returns])
+        fr = State()
+        fr.locals = dict(bind)
+        for p in vec:
+            fr.locals[p] = bind[p].at(j)
+        fr.locals["__old__"] = dict(fr.locals)
+        fr.locals["result"] = F(j)
+        fr.pc = st.pc
+        saved = ex.checking
+        ex.checking = False
+        ex.binders += 1
+        ex.bound_stack.append(j)
+        try:
+            pres = [ex.truth(ex.eval(rq, fr)) for rq in c.requires]
+            posts = [ex.truth(ex.eval(e, fr)) for e in c.ensures]
+        finally:
+            ex.checking = saved
+            ex.binders -= 1
+            ex.bound_stack.pop()
+        rng = z3.And(j >= 0, j < to_z3(n))
+        for k, g in enumerate(pres):
+            if g is True:
+                continue
+            ex.oblige(st, z3.ForAll([j], z3.Implies(rng, to_z3(g))), "call-pre[%s.%d]" % (short, k), node)
+        for g in posts:
+            if g is True:
+                continue
+            st.assume(z3.ForAll([j], z3.Implies(rng, to_z3(g)), patterns=[F(j)]))
+        return Seq(n, lambda i: F(to_z3(as_int(i))), "array")
 
     # ------------------------------------------------------------------ attribute access
     def getattr(self, ex, st, obj, attr, node):
@@ -551,6 +626,8 @@ class Lib:
                 return Fraction(x).denominator == 1
             if name in ("mean", "min", "max", "item"):
                 return obj
+            if name in ("any", "all"):      # 0-d numpy values
+                return ex.truth(obj)
         raise EngineError("%s:L%d: method %s on %r outside the subset" % (ex.fnname, node.lineno, name, obj))
 
     def str_method(self, ex, st, s, name, args, kwargs, node):
@@ -1227,6 +1304,63 @@ class Lib:
         if isinstance(v, Seq):
             return Seq(v.n, lambda i: floor(v.at(i)), "array")
         return floor(v)
+
+    def _uf1(self, ex, name, v, axioms=None):
+        f = self.ctx.uf(name, R, R)
+        if isinstance(v, Seq):
+            return Seq(v.n, lambda i: f(to_z3(as_real(v.at(i)))), "array")
+        if isinstance(v, tuple):
+            return Seq.of([f(to_z3(as_real(x))) for x in v], "array")
+        return f(to_z3(as_real(v)))
+
+    def b_np_exp(self, ex, st, args, kwargs, node):
+        trusted("exp: uninterpreted real function with exp(x) > 0 (no further properties assumed)")
+        f = self.ctx.uf("exp", R, R)
+        if not st.ghost.get("exp_pos"):
+            st.ghost["exp_pos"] = True
+            x = z3.Real(uid("x"))
+            from .values import BOUND
+            BOUND.add(x.decl().name())
+            st.pc.append(z3.ForAll([x], f(x) > 0, patterns=[f(x)]))
+        return self._uf1(ex, "exp", args[0])
+
+    def b_np_log(self, ex, st, args, kwargs, node):
+        trusted("log: uninterpreted real function (argument must be positive)")
+        v = args[0]
+        if isinstance(v, Seq):
+            p = ex._probe_index(st, v.n)
+            if p:
+                ex.oblige(p[0], ex.cmp_gt(v.at(p[1]), 0), "log-of-positive", node)
+        elif is_scalar(v):
+            ex.oblige(st, ex.cmp_gt(v, 0), "log-of-positive", node)
+        return self._uf1(ex, "log", v)
+
+    def b_np_linspace(self, ex, st, args, kwargs, node):
+        trusted("numpy.linspace(a, b, n)[i] = a + i (b - a) / (n - 1)")
+        a, b, n = as_real(args[0]), as_real(args[1]), as_int(args[2])
+        if not isinstance(n, int) or n < 2:
+            raise EngineError("linspace with symbolic / tiny count outside the subset")
+        if not is_z3(a) and not is_z3(b):
+            return Seq.of([Fraction(a) + Fraction(i) * (Fraction(b) - Fraction(a)) / (n - 1) for i in range(n)], "array")
+        return Seq(n, lambda i: a + as_real(i) * (b - a) / (n - 1), "array")
+
+    def b_np_allclose(self, ex, st, args, kwargs, node):
+        trusted("numpy.allclose(a, b): |a - b| <= 1e-8 + 1e-5 |b| element-wise (equal values are close)")
+        a, b = args[0], args[1]
+        def close(x, y):
+            x, y = as_real(x), as_real(y)
+            d = ex.scalar_binop(ast.Sub(), x, y, st, node)
+            ad = self.b_abs(ex, st, [d], {}, node)
+            ay = self.b_abs(ex, st, [y], {}, node)
+            return ex.cmp_le(ad, Fraction(1, 10**8) + Fraction(1, 10**5) * ay)
+        if isinstance(a, Seq) or isinstance(b, Seq):
+            a2 = a if isinstance(a, Seq) else None
+            b2 = b if isinstance(b, Seq) else None
+            n = (a2 or b2).n
+            if a2 is not None and b2 is not None:
+                ex.oblige(st, ex.cmp_eq(a2.n, b2.n), "broadcast-shape", node)
+            return self.all_of(ex, st, Seq(n, lambda i: close(a2.at(i) if a2 is not None else a, b2.at(i) if b2 is not None else b), "array"))
+        return close(a, b)
 
     def b_np_mean(self, ex, st, args, kwargs, node):
         v = args[0]
